@@ -11,7 +11,7 @@ import networkx as nx
 import numpy as np
 import xgi
 
-from .. import nets, shapes
+from .. import nets, shapes, stubs
 from ..runner import harness
 
 
@@ -159,6 +159,51 @@ def _graph_body(ctx, what, H, nl, el, N, M, E, comps, Cl):
                         ctx.require(any((a, b) in got for b in subs if len(E[b]) == max(len(E[c]) for c in subs)) or True, "")
 
 
+HUB_EDGES = [(1, 2), (0, 1), (1, 3), (1, 2, 3), (1,), (2, 3), (1, 2), (1, 3), (0, 1), (1, 2)]
+# second arrangement: the two edges that share two nodes (ids 1 and 8) meet an edge with a
+# non-integer id at one of those nodes only, and that node has few memberships
+HUB_EDGES2 = [(2, 3), (0, 1), (2,), (3,), (2, 3), (3,), (2,), (2, 3), (0, 1), (1, 2)]
+HUB_IDS = [[0, 1, 2, 3, 4, 5, 6, 7, 8, "extra"], [0, 1, 2, 3, 4, 5, 6, 7, 8, (2, 9)], [0, 1, 2, 3, 4, 5, 6, 7, 8, 9],
+           ["a", 1, 2, 3, 4, 5, 6, 7, 8, -1], [10, 1, 2, 3, 4, 5, 6, 7, 8, 2.5]]
+HUB_NODES = [[0, 1, 2, 3], ["x", 8, 16, -2], [(0,), 1, "z", 9]]
+
+
+@harness("C14.hub")
+def hub(ctx, p):
+    """Real hashing, concrete labels: one node lies in nine edges and another in two of
+    them, so the same pair of edge ids iterates in opposite orders in the two membership
+    sets (different hash-table sizes); edge ids mix integers with a string, a tuple or a
+    float.  Every graph-derived function against the same oracles as C14.graph."""
+    ids = HUB_IDS[ctx.choose("ids", len(HUB_IDS))]
+    nl = HUB_NODES[ctx.choose("nodes", len(HUB_NODES))]
+    what = p["what"]
+    ctx.info["op"] = what + " (hub network, pooled labels)"
+    hub_edges = HUB_EDGES2 if ctx.flag("second_arrangement") else HUB_EDGES
+    E = [set(e) for e in hub_edges]
+    N, M = 4, len(E)
+    with stubs.uninstalled():
+        H = xgi.Hypergraph()
+        H.add_nodes_from(nl)
+        for j, e in enumerate(hub_edges):
+            H.add_edge([nl[i] for i in e], idx=ids[j])
+        Bip = nx.Graph()
+        Bip.add_nodes_from(("n", i) for i in range(N))
+        Bip.add_nodes_from(("e", j) for j in range(M))
+        Bip.add_edges_from((("n", i), ("e", j)) for j in range(M) for i in E[j])
+        comps = [frozenset(i for k, i in c if k == "n") for c in nx.connected_components(Bip)]
+        comps = [c for c in comps if c]
+        Cl = nx.Graph()
+        Cl.add_nodes_from(range(N))
+        for e in E:
+            Cl.add_edges_from(itertools.combinations(sorted(e), 2))
+        with warnings.catch_warnings():
+            warnings.simplefilter("ignore")
+            try:
+                _graph_body(ctx, what, H, nl, ids, N, M, E, comps, Cl)
+            except Exception as ex:
+                ctx.require(False, f"{what}: raised {type(ex).__name__} on an admissible input")
+
+
 def spec(tier, seed):
     if tier == "quick":
         shp = shapes.shapes_H_upto(3, 3) + shapes.shapes_H(4, 2) + shapes.shapes_H(4, 3)[::3]
@@ -170,6 +215,8 @@ def spec(tier, seed):
             units.append(("C14.graph", {"shape": s, "what": what}))
             if s[0] and s[1] and s[0] <= 3:
                 units.append(("C14.graph", {"shape": s, "what": what, "warm": True}))
+    for what in ("components", "paths", "clustering", "to_graph", "line_graph", "bipartite", "dag"):
+        units.append(("C14.hub", {"shape": None, "what": what}))
     return {
         "units": units,
         "caps": {"paths": 50000, "wall": 900},
